@@ -40,7 +40,7 @@ type c19Case struct {
 	Const  string   `json:"constant"`
 }
 
-type c19Val struct{ name, lit, other, equalOther string }
+type c19Val struct{ name, lit, other, equalOther string } // lit containing "X" is a whole input that binds X
 
 var c19Vals = []c19Val{
 	{"int", "5", "6", "5.0"},
@@ -54,6 +54,9 @@ var c19Vals = []c19Val{
 	{"map2", `{"a": 1, "b": 2}`, `{"a": 1, "b": 3}`, `{"a": 1.0, "b": 2}`},
 	{"map7", `{"a": 1, "b": 2, "c": 3, "d": 4, "e": 5, "f": 6, "g": 7}`, `{"a": 9, "b": 2, "c": 3, "d": 4, "e": 5, "f": 6, "g": 7}`, `{"a": 1.0, "b": 2, "c": 3, "d": 4, "e": 5, "f": 6, "g": 7}`},
 	{"func", "x => x + 1", "x => x + 2", ""},
+	{"zero", "0", "1", "0.0"}, // the first value of for X = 3 {}: the first Set is legal, the others are not
+	{"inloopkey", "for i = 3 {if i == 0 {X = {i: \"a\"}}}", "{1: \"a\"}", ""}, // bound inside a loop to a literal holding the loop variable
+	{"inloopval", "for i = 1:4 {if i == 1 {X = [i, [i], {\"k\": i}]}}", "[2, [2], {\"k\": 2}]", ""},
 	{"poszero", "0.0", "1.5", "(-0.0)"},                                                           // -0.0 == 0.0 but 1/X tells them apart
 	{"closure", "(n => (x => x + n))(1)", "(n => (x => x + n))(2)", "(n => (x => x + n))(3 - 2)"}, // same text, other captured value
 }
@@ -69,14 +72,27 @@ var c19Attempts = []string{
 	"for 2 {X = V}", "for i = 2 {X = V}", "if true {X = V}", "func g4() {X[0] = 99}; g4()", `func g5() {X.a = 99}; g5()`, `func g6() {del(X["a"])}; g6()`,
 	"func g7() {X++}; g7()", "func g8() {for X = 2 {}}; g8()", "X = X + V", "[X = V]", "{1: (X = V)}", "catch(X = V)", "println(X = V)",
 	"func g9(n) {if n <= 0 {return 0}; X = V; g9(n - 1)}; g9(2)",
+	// loops that start at the constant's own value, and unrelated loops / calls that reuse registers
+	"for X = S:S + 3 {}", "for X = 0:3 {}", "for X = 4 {X}", "for j9 = 2:7 {}", "for j9 = 5 {for j8 = 2:4 {}}", "func gr(a, b, c) {a + b + c}; gr(11, 12, 13)",
 }
 
 var c19Scopes = []string{"%s", "func sc1() {%s}; sc1()", "func sc2() {in2 = () => {%s}; in2()}; sc2()", "for 2 {%s}", "for j9 = 1 {%s}"}
+
+// c19Init is the input that binds the constant.
+func c19Init(name string, v c19Val) string {
+	if strings.Contains(v.lit, "X") {
+		return strings.ReplaceAll(v.lit, "X", name)
+	}
+	return name + " = " + v.lit
+}
 
 func c19Instantiate(tmpl, name string, v c19Val) string {
 	q := v.equalOther
 	if q == "" {
 		q = v.lit
+	}
+	if strings.Contains(v.lit, "X") { // bound by a whole input: "the same literal" is the name itself
+		v.lit, q = name, name
 	}
 	r := strings.NewReplacer("X", name, "V", "("+v.other+")", "S", "("+v.lit+")", "Q", "("+q+")")
 	return r.Replace(tmpl)
@@ -161,7 +177,7 @@ func (p c19) RunBatch(c *fw.Ctx) {
 				}
 				name := "KX"
 				att := fmt.Sprintf(sc, c19Instantiate(a, name, v))
-				p.one(c, []string{name + " = " + v.lit, att}, name, fmt.Sprintf("%s|a%d|s%d", v.name, ai, si))
+				p.one(c, []string{c19Init(name, v), att}, name, fmt.Sprintf("%s|a%d|s%d", v.name, ai, si))
 				c.Count("enumerated_sessions", 1)
 			}
 		}
@@ -172,7 +188,7 @@ func (p c19) RunBatch(c *fw.Ctx) {
 	for i := 0; i < n; i++ {
 		v := c19Vals[c.Rng.IntN(len(c19Vals))]
 		name := []string{"KX", "A", "MAX_1", "K2B"}[c.Rng.IntN(4)]
-		inputs := []string{name + " = " + v.lit}
+		inputs := []string{c19Init(name, v)}
 		for k := 2 + c.Rng.IntN(9); k > 0; k-- {
 			a := c19Attempts[c.Rng.IntN(len(c19Attempts))]
 			sc := c19Scopes[c.Rng.IntN(len(c19Scopes))]
